@@ -164,12 +164,9 @@ Proof.
   - unfold w_not, inw in *. wl.
 Qed.
 
-Lemma eval_range en orc e : forall tr, inw (fst (eval en orc e tr)).
+Lemma ceil32_sem_range a : inw a -> inw (ceil32_sem a).
 Proof.
-  induction e; intros tr; cbn [eval fst]; try apply wrap_range.
-  - specialize (IHe tr). destruct (eval en orc e tr) as [va t1]. cbn [fst] in *. apply uop_sem_range; auto.
-  - specialize (IHe2 tr). destruct (eval en orc e2 tr) as [vb t1]. specialize (IHe1 t1).
-    destruct (eval en orc e1 t1) as [va t2]. cbn [fst] in *. apply bop_sem_range; auto.
-  - apply IHe.
-  - specialize (IHe1 tr). destruct (eval en orc e1 tr) as [vc t1]. destruct (vc =? 0); auto.
+  intros Ha. unfold ceil32_sem, w_and. apply land_range.
+  - unfold w_add, inw. apply Z.mod_pos_bound. wl.
+  - unfold w_not, inw. wl.
 Qed.
